@@ -121,6 +121,62 @@ def branch_contracts(ck, cs, system, orbit, label, fractions_step, disp, n_stm=2
             cs.traces.remove(t)
 
 
+def seed_observables(system, orbit, man, res, stable, disp, step):
+    """(displacement defect, Floquet angle) of every retained trajectory of one compute() result."""
+    x0, T, M, at = orbit_reference(system, orbit)
+    _, _, states_list, times_list, successes, attempts = res
+    grid = np.linspace(0.0, T, 2000)
+    fracs = list(np.arange(0.0, 1.0, step))
+    out = []
+    for states in states_list:
+        seed = np.asarray(states)[0]
+        best = None
+        for f in fracs:
+            k = int(np.argmin(np.abs(f * T - grid)))
+            xt, Phi = at(float(grid[k]))
+            dist = np.linalg.norm(seed[:3] - xt[:3])
+            if best is None or abs(dist - disp) < best[0]:
+                best = (abs(dist - disp), xt, Phi)
+        _, xt, Phi = best
+        w = seed - xt
+        Mt = Phi @ M @ np.linalg.inv(Phi)
+        ev, V = np.linalg.eig(Mt)
+        real = [i for i in range(6) if abs(ev[i].imag) < 1e-8 * max(1.0, abs(ev[i]))]
+        cand = [i for i in real if (abs(ev[i]) < 0.5 if stable else abs(ev[i]) > 2.0)]
+        i = min(cand, key=lambda i: abs(ev[i])) if stable else max(cand, key=lambda i: abs(ev[i]))
+        out.append((abs(np.linalg.norm(w[:3]) - disp) / disp, angle(w, np.real(V[:, i]))))
+    return out
+
+
+def history_contracts(ck, cs, system, orbitA, orbitB):
+    """The same contracts after a history: repeated compute() on one Manifold object with a changed displacement, and
+    a manifold of another orbit computed in between (values must be those of a fresh object in the same state)."""
+    step = 0.34
+    for stable in (True, False):
+        manA = orbitA.manifold(stable=stable, direction="positive")
+        t = cs.trace(f"history|stable={stable}", {"displacement": -40, "floquet_angle": -27}, {"orbit": "A-B-A", "stable": stable, "direction": "positive"})
+        ck.count(("history", stable), True)
+        r1 = manA.compute(step=step, integration_fraction=0.2, displacement=1e-4, dt=1e-2, show_progress=False)
+        for d, a in seed_observables(system, orbitA, manA, r1, stable, 1e-4, step):
+            cs.obs(t, "displacement", d)
+            cs.obs(t, "floquet_angle", a)
+        # same object, only the displacement changes
+        r2 = manA.compute(step=step, integration_fraction=0.2, displacement=3e-5, dt=1e-2, show_progress=False)
+        for d, a in seed_observables(system, orbitA, manA, r2, stable, 3e-5, step):
+            cs.obs(t, "displacement", d)
+            cs.obs(t, "floquet_angle", a)
+        # a manifold of another orbit in between, then the first object again with another argument changed
+        manB = orbitB.manifold(stable=stable, direction="positive")
+        rB = manB.compute(step=step, integration_fraction=0.2, displacement=1e-4, dt=1e-2, show_progress=False)
+        for d, a in seed_observables(system, orbitB, manB, rB, stable, 1e-4, step):
+            cs.obs(t, "displacement", d)
+            cs.obs(t, "floquet_angle", a)
+        r3 = manA.compute(step=step, integration_fraction=0.15, displacement=1e-4, dt=1e-2, show_progress=False)
+        for d, a in seed_observables(system, orbitA, manA, r3, stable, 1e-4, step):
+            cs.obs(t, "displacement", d)
+            cs.obs(t, "floquet_angle", a)
+
+
 def main(tier=None, replay=None):
     ck = Check("C12", "model_checking", tier)
     rnd = random.Random(ck.seed)
@@ -138,11 +194,17 @@ def main(tier=None, replay=None):
     if not ck.quick:
         orbs += [("L1-lyapunov-Ax4e-3", 1, "lyapunov", dict(amplitude_x=4e-3)),
                  ("L2-halo-Az0.1N", 2, "halo", dict(amplitude_z=0.1, zenith="northern"))]
+    first = None
     for label, li, fam, kw in orbs:
         L = system.get_libration_point(li)
         orbit = L.create_orbit(fam, **kw)
         orbit.correct()
+        first = first or orbit
         branch_contracts(ck, cs, system, orbit, label, 0.34 if ck.quick else 0.19, 1e-4)
+    L1 = system.get_libration_point(1)
+    orbitB = L1.create_orbit("lyapunov", amplitude_x=6e-3)
+    orbitB.correct()
+    history_contracts(ck, cs, system, first, orbitB)
     cs.decide(key_fn=lambda t, n: f"manifold|stable={t['data']['stable']}|{n}")
     cs.selftest()
     ck.cov["rule"] = ("branches = {stable, unstable} x {positive, negative} of corrected periodic orbits x phase fractions "
